@@ -41,7 +41,7 @@ LEVEL_TEXT = ("The planner is a pure function of the multiset of counts: all "
 LEVEL_NOTE = ("Trusts bzrformats (pack/index writing, key_count) as the base; "
               "autopack is disabled by the harness on selected write groups only "
               "to construct pack multisets, never on the observed one.")
-REGISTERED = False
+REGISTERED = True
 NONTRIVIAL_FLOOR = {"quick": 3000, "thorough": 50000}
 
 VALUES = [1, 2, 3, 4, 5, 9, 10, 11, 19, 20, 99, 100, 101, 999, 1000]
